@@ -314,10 +314,12 @@ let ef t = fun (i, edit) a buf ->
   let (b, r) = emplace pv t i a buf in
   match r, edit with
   | Ok (), Some ox ->
-    let (nb, _) = (match tail_container t (clean b) with
-        | Some (_, TFlex (_, _)) -> nested_flex_op pv t a (fop_of ox) b
-        | Some _ -> nested_vec_op pv t (vop_of ox) b
-        | None -> (b, OBad)) in
+    let (nb, _) = (match tail_container t (clean b), ox with
+        | Some (_, TFlex (_, _)), Lst [Atom "editflex"; Atom n; o] ->
+          nested_flex_edit_flex pv t a (num_of_string n) (fop_of o) b
+        | Some (_, TFlex (_, _)), _ -> nested_flex_op pv t a (fop_of ox) b
+        | Some _, _ -> nested_vec_op pv t (vop_of ox) b
+        | None, _ -> (b, OBad)) in
     (nb, Ok ())
   | _ -> (b, r)
 let unspecified = n_of_int 256
